@@ -850,6 +850,7 @@ func (w *World) checkProperty(p, tier string, seed int, g *generated, reg *Regis
 			"obligations_generated":     len(outcomes),
 			"proved_not_registered":     provedNotReg,
 			"undecided_not_claimed":     undecided,
+			"assumed_but_undecided":     assumedUndecided(w, reg, outcomes),
 			"renamed_matched_by_group":  renamed,
 			"retired":                   retired,
 			"cover_checks":              nCover,
